@@ -26,6 +26,7 @@ import Alos2.Proofs.Array
 import Alos2.Proofs.ImageIO
 import Alos2.Proofs.Geometry
 import Alos2.Proofs.LineAddr
+import Alos2.Proofs.ReaderPixels
 
 namespace Alos2.C01
 
@@ -90,5 +91,29 @@ theorem layout_ranges (file : Bytes) (rpc : Nat) (header : Val) (recs : List Val
       intAt r ["data", "start"] = .ok ((720 + i * L + prefixOf t : Nat) : Int) ∧
       intAt r ["data", "stop"] = .ok ((720 + (i + 1) * L : Nat) : Int) :=
   readImageRecords_ranges file rpc header recs h L hL hdrL hrl t ht hty
+
+/-- END TO END, from the bytes of an image FILE to the samples: whenever the layout-based reader (`open_image` without a cache)
+    opens a file whose line records are well framed and whose header is self-consistent (declared shape = (number of line
+    records, m), record length = prefix + m·bpp for the declared type code), the lazy array built from what the reader returns
+    loads one row per line record, m samples each, sample (i, j) being bytes [720 + i·L + P + j·bpp, … + bpp) of the file —
+    for every positive `records_per_chunk` -/
+theorem reader_pixel_fidelity (file : Bytes) (name : String) (rpc : Nat) (gname : String) (g : ImageGroup)
+    (h : openImageFile file name rpc = .ok (gname, g))
+    (header : Val) (recs : List Val) (hr : readImageRecords file rpc = .ok (header, recs))
+    (hrpc : 0 < rpc) (hn : 0 < recs.length)
+    (L : Nat) (hL : 0 < L) (hdrL : intAt header ["sar_data_record_length"] = .ok (L : Int))
+    (hrl : ∀ r ∈ recs, intAt r ["preamble", "record_length"] = .ok (L : Int))
+    (t : Nat) (ht : t = 10 ∨ t = 11) (hty : ∀ r ∈ recs, intAt r ["preamble", "record_type"] = .ok (t : Int))
+    (m bpp : Nat) (dt : String)
+    (hbpp : Gen.dtypes.find? (fun d => d.1 = g.array.typeCode) = some (g.array.typeCode, dt, bpp))
+    (hshape : g.array.shape = (((recs.length : Nat) : Int), ((m : Nat) : Int)))
+    (hLm : L = prefixOf t + m * bpp) :
+    ∃ rows : List (List Bytes),
+      (getitem (imageOfMeta file g.array bpp) (.slice none none none) (.slice none none none)).1 = .ok (.d2 m rows) ∧
+      rows.length = recs.length ∧
+      ∀ i, i < recs.length → ∀ j, j < m →
+        (rows.getD i []).getD j [] =
+          slice file (720 + i * L + prefixOf t + j * bpp) (720 + i * L + prefixOf t + (j + 1) * bpp) :=
+  Alos2.reader_pixel_fidelity file name rpc gname g h header recs hr hrpc hn L hL hdrL hrl t ht hty m bpp dt hbpp hshape hLm
 
 end Alos2.C01
